@@ -3,7 +3,11 @@
 
 package php7
 
-import "github.com/z7zmey/php-parser/pkg/token"
+import (
+	"reflect"
+
+	"github.com/z7zmey/php-parser/pkg/token"
+)
 
 // VerifLexHook, when set, is called after every token the parser pulls
 // from the scanner. The verification harness uses it to record events and
@@ -22,7 +26,24 @@ func VerifSetDebug(n int) { yyDebug = n }
 // VerifTables returns the rule tables of the generated parser:
 // left-hand side and right-hand-side length per rule, and token names.
 func VerifTables() (r1 []int, r2 []int, toknames []string) {
-	return yyR1[:], yyR2[:], yyToknames[:]
+	return verifInts(yyR1[:]), verifInts(yyR2[:]), yyToknames[:]
+}
+
+// verifInts copies a table whatever integer type the generator gave it
+// (goyacc versions differ: []int, []int8, []uint8, []int16 ...).
+func verifInts(tab interface{}) []int {
+	v := reflect.ValueOf(tab)
+	out := make([]int, v.Len())
+	for i := range out {
+		e := v.Index(i)
+		switch e.Kind() {
+		case reflect.Uint, reflect.Uint8, reflect.Uint16, reflect.Uint32, reflect.Uint64:
+			out[i] = int(e.Uint())
+		default:
+			out[i] = int(e.Int())
+		}
+	}
+	return out
 }
 
 // VerifTokname names a token the way the debug stream does.
